@@ -16,8 +16,9 @@ Mirrors `trigger.py`:
     date is fixed) with `end_offset`, `break` on the first day that yields a candidate;
   - `cron(...)`: `croniter.get_next()` repeated until the UTC difference to `now` is positive; `next_time` is the local
     cron time, `next_time_adj = now + delta`.
-* the floating point quotient `math.floor((now - start).total_seconds() / period)` is the parameter `fdiv`; theorems assume
-  it is the exact floor (`ExactDiv`), the driver instantiates it with IEEE doubles exactly like Python does.
+* the tick index is exact integer floor division since fix c80f3bb (`TFlags.current`); the earlier floating point quotient
+  `math.floor((now - start).total_seconds() / period)` is the parameter `fdiv`, used only under `TFlags.preFix` (the driver
+  instantiates it with IEEE doubles exactly like Python did) – kept for the regression theorem.
 
 Times are integer microseconds; `none` results of `parseDT` (non-existent dates) propagate as "raises".
 -/
@@ -96,18 +97,33 @@ def onceCand (P : Params) (d : DTSpec) (now startup : Int) : Option (Option Int)
 
 /-! ### period -/
 
-/-- `start + timedelta(seconds = period * (1.0 + floor((now - start) / period)))` -/
-def nextTick (P : Params) (start per now : Int) : Int := start + per * (1 + P.fdiv (now - start) per)
+/-- how the tick index is computed -/
+structure TFlags where
+  /-- before fix c80f3bb: `math.floor((now - start).total_seconds() / period)` in double arithmetic (parameter `fdiv`);
+      now: `(now - start) // period_td`, exact floor division of timedeltas -/
+  floatTick : Bool
+deriving DecidableEq, Repr
 
-def periodNoEnd (P : Params) (st per now startup : Int) (s : NT) : NT :=
+/-- the code before fix c80f3bb -/
+def TFlags.preFix : TFlags := ⟨true⟩
+/-- the code as it is -/
+def TFlags.current : TFlags := ⟨false⟩
+
+def quot (F : TFlags) (P : Params) (a per : Int) : Int := if F.floatTick then P.fdiv a per else a / per
+
+/-- `start + ((now - start) // period_td + 1) * period_td`
+    (before c80f3bb: `start + timedelta(seconds = period * (1.0 + floor((now - start) / period)))`) -/
+def nextTick (F : TFlags) (P : Params) (start per now : Int) : Int := start + per * (1 + quot F P (now - start) per)
+
+def periodNoEnd (F : TFlags) (P : Params) (st per now startup : Int) (s : NT) : NT :=
   let isStartup := now == st && now == startup
   let s1 := if now < st || isStartup then s.take st st else s
   if now ≥ st && !isStartup then
-    (if now < nextTick P st per now then s1.take (nextTick P st per now) (nextTick P st per now) else s1)
+    (if now < nextTick F P st per now then s1.take (nextTick F P st per now) (nextTick F P st per now) else s1)
   else s1
 
 /-- the `for day in day_dither:` loop; `none` = raises -/
-def ditherLoop (P : Params) (startSpec stopSpec : DTSpec) (per endOff now startup : Int) (s : NT) : List Int → Option NT
+def ditherLoop (F : TFlags) (P : Params) (startSpec stopSpec : DTSpec) (per endOff now startup : Int) (s : NT) : List Int → Option NT
   | [] => some s
   | day :: rest =>
     match parseDT P.base startSpec day now startup with
@@ -117,28 +133,28 @@ def ditherLoop (P : Params) (startSpec stopSpec : DTSpec) (per endOff now startu
       | none => none
       | some en =>
         if (decide (now < st.1) || (now == st.1 && now == startup)) && decide (st.1 ≤ en.1) then some (s.take st.1 st.1)
-        else if decide (st.1 ≤ nextTick P st.1 per now) && decide (nextTick P st.1 per now ≤ en.1) then
-          some (s.take (nextTick P st.1 per now) (nextTick P st.1 per now))
-        else ditherLoop P startSpec stopSpec per endOff now startup s rest
+        else if decide (st.1 ≤ nextTick F P st.1 per now) && decide (nextTick F P st.1 per now ≤ en.1) then
+          some (s.take (nextTick F P st.1 per now) (nextTick F P st.1 per now))
+        else ditherLoop F P startSpec stopSpec per endOff now startup s rest
 
-def periodWithEnd (P : Params) (startSpec stopSpec : DTSpec) (per now startup : Int) (st en : Int × Bool) (s : NT) :
+def periodWithEnd (F : TFlags) (P : Params) (startSpec stopSpec : DTSpec) (per now startup : Int) (st en : Int × Bool) (s : NT) :
     Option NT :=
   if !st.2 && !en.2 then
-    ditherLoop P startSpec stopSpec per (if en.1 < st.1 then 1 else 0) now startup s [-1, 0, 1]
-  else ditherLoop P startSpec stopSpec per 0 now startup s [0]
+    ditherLoop F P startSpec stopSpec per (if en.1 < st.1 then 1 else 0) now startup s [-1, 0, 1]
+  else ditherLoop F P startSpec stopSpec per 0 now startup s [0]
 
-def periodStep (P : Params) (startSpec : DTSpec) (per : Int) (stop : Option DTSpec) (now startup : Int) (s : NT) :
+def periodStep (F : TFlags) (P : Params) (startSpec : DTSpec) (per : Int) (stop : Option DTSpec) (now startup : Int) (s : NT) :
     Option NT :=
   match parseDT P.base startSpec 0 now startup with
   | none => none
   | some st =>
     if per ≤ 0 then some s          -- "Invalid non-positive period": skipped
     else match stop with
-      | none => some (periodNoEnd P st.1 per now startup s)
+      | none => some (periodNoEnd F P st.1 per now startup s)
       | some stopSpec =>
         match parseDT P.base stopSpec 0 now startup with
         | none => none
-        | some en => periodWithEnd P startSpec stopSpec per now startup st en s
+        | some en => periodWithEnd F P startSpec stopSpec per now startup st en s
 
 /-! ### cron -/
 
@@ -154,43 +170,43 @@ def cronFuel : Nat := 16
 
 /-! ### the loop over specifications -/
 
-def specStep (P : Params) (now startup : Int) (s : NT) : TSpec → Option NT
+def specStep (F : TFlags) (P : Params) (now startup : Int) (s : NT) : TSpec → Option NT
   | .once d =>
     match onceCand P d now startup with
     | none => none
     | some none => some s
     | some (some t) => some (s.take t t)
-  | .period st per stop => periodStep P st per stop now startup s
+  | .period st per stop => periodStep F P st per stop now startup s
   | .cron id =>
     match cronLoop P id now cronFuel now with
     | none => none
     | some r => some (s.take r.1 (now + r.2))
 
-def specsLoop (P : Params) (now startup : Int) : List TSpec → NT → Option NT
+def specsLoop (F : TFlags) (P : Params) (now startup : Int) : List TSpec → NT → Option NT
   | [], s => some s
   | sp :: rest, s =>
-    match specStep P now startup s sp with
+    match specStep F P now startup s sp with
     | none => none
-    | some s' => specsLoop P now startup rest s'
+    | some s' => specsLoop F P now startup rest s'
 
 /-- `TrigTime.timer_trigger_next(specs, now, startup_time)` → `(next_time, next_time_adj)`; `none` = raises -/
-def timerNext (P : Params) (specs : List TSpec) (now startup : Int) : Option NT :=
-  specsLoop P now startup specs ⟨none, none⟩
+def timerNext (F : TFlags) (P : Params) (specs : List TSpec) (now startup : Int) : Option NT :=
+  specsLoop F P now startup specs ⟨none, none⟩
 
 /-- The wait-and-fire loop of both subsystems (`trigger_watch` l.1127–1167, `TimeTriggerDecorator._cycle`): read the clock,
 compute the next instant, sleep until it, run the function with `trigger_time` = that instant, read the clock again.
 `lat i` is how far the clock has moved past the instant when it is read again (`dt_now()` is strictly increasing, the
 legacy loop additionally re-checks `actual_now < time_next` after an early wake-up, so `lat i ≥ 1`).  The result is the
 list of `trigger_time`s of the runs; the loop ends when no instant is left. -/
-def timeLoop (P : Params) (specs : List TSpec) (startup : Int) (lat : Nat → Int) : Nat → Int → List Int
+def timeLoop (F : TFlags) (P : Params) (specs : List TSpec) (startup : Int) (lat : Nat → Int) : Nat → Int → List Int
   | 0, _ => []
   | n + 1, now =>
-    match timerNext P specs now startup with
-    | some ⟨some t, _⟩ => t :: timeLoop P specs startup lat n (t + lat n)
+    match timerNext F P specs now startup with
+    | some ⟨some t, _⟩ => t :: timeLoop F P specs startup lat n (t + lat n)
     | _ => []
 
 /-- one specification alone -/
-def timerNext1 (P : Params) (sp : TSpec) (now startup : Int) : Option (Option Int) :=
-  (specStep P now startup ⟨none, none⟩ sp).map (·.next)
+def timerNext1 (F : TFlags) (P : Params) (sp : TSpec) (now startup : Int) : Option (Option Int) :=
+  (specStep F P now startup ⟨none, none⟩ sp).map (·.next)
 
 end PsModel.C06
